@@ -141,6 +141,21 @@ class C15(core.Check):
                 with core.time_limit(60):
                     s5.execute('MERGE "TA"')
                     loaded['MERGE'] = bytes(s5._impl.program.bytecode.getvalue())
+            # MERGE of the ASCII file over the same program still in memory, with memory nearly full (seed C15e): every line
+            # replaces itself, so no more memory is needed than is in use
+            with common.new_session(devices={'C': d}, current_device='C:') as s6:
+                with core.time_limit(60):
+                    s6.execute(progen.text([tuple(x) for x in case['p']]))
+                    s6.execute('CLEAR ,32768')
+                    try:
+                        free = int(s6.evaluate('FRE(0)'))
+                    except Exception:
+                        free = None
+                    if free is not None and free > 100:
+                        s6.execute('CLEAR ,%d' % (32768 - free + 24))
+                        before = bytes(s6._impl.program.bytecode.getvalue())
+                        out6 = s6.execute('MERGE "TA"')
+                        loaded['TIGHT'] = (before, bytes(s6._impl.program.bytecode.getvalue()), out6, s6.evaluate('FRE(0)'))
             # command-line converter (main._convert through pcbasic.main.main) on the files just saved
             conv = {}
             if self._do_convert(case):
@@ -305,6 +320,12 @@ class C15(core.Check):
                 if not (fb2 == fa or (len(fb2) == len(fa) + 1 and fb2[:len(fa) - 1] == fa[:-1])):
                     return ('LOAD "%s" in the session that saved it, then SAVE again: %d bytes, the original file has %d bytes'
                             % (a[:2], len(fb2), len(fa)))
+        tight = loaded.get('TIGHT')
+        if tight is not None and c4[:self.prog_end(c4)] == code[:prog_end]:
+            before, after, out6, free6 = tight
+            if after[:self.prog_end(after)] != before[:self.prog_end(before)] or (out6 and 'memory' in str(out6)):
+                return ('MERGE of the saved ASCII file over the same program with %s bytes free changed the program or failed: %r'
+                        % (free6, out6))
         conv = loaded.get('CONV') or {}
         same = c4[:self.prog_end(c4)] == code[:prog_end]
         want = {('TB.BAS', 'a'): files['TA.BAS'], ('TB.BAS', 'p'): files['TP.BAS'], ('TP.BAS', 'b'): files['TB.BAS'],
